@@ -242,6 +242,7 @@ def _run_case(case: dict, judges: list[str], opts: dict):
                 lines["MI"] = mi
             if mg is not None:
                 lines["MG"] = mg
+            slow = False
             for mode in modes:
                 if mode in b.err:
                     continue
@@ -249,6 +250,19 @@ def _run_case(case: dict, judges: list[str], opts: dict):
                 res[mode] = r
                 lines[mode] = impl.render(r, syms)
                 out["evals"] += 1
+                if r[0] == "EXC" and r[1] == "Timeout":
+                    slow = True
+                    break
+            if slow and case.get("family") in ("G2", "G3"):
+                # random / bundled grammars can need exponential time although they terminate (the reference
+                # semantics did finish): the 2 s + 20 s timer protects the harness and is not a verdict. The input
+                # gets none, and after two such inputs the rest of the grammar is skipped. (For the small
+                # template grammars of the other families a parse that does not finish IS reported.)
+                out["slow"] = out.get("slow", 0) + 1
+                out["excluded"] += 1
+                if out["slow"] >= 2:
+                    return out
+                continue
             if m.startswith("OK"):
                 out["accepted"] += 1
             else:
@@ -420,6 +434,8 @@ def run_cases(cases: list[dict], judges: list[str], opts: dict | None = None, np
             agg["build_errors"] += 1
         for kk, vv in r["kinds"].items():
             agg["kinds"][kk] = agg["kinds"].get(kk, 0) + vv
+        if r.get("slow"):
+            agg["slow_inputs"] = agg.get("slow_inputs", 0) + r["slow"]
         if "wf" in r:
             wf = agg.setdefault("wf", {"certified": 0, "not_certified": 0})
             for kk in wf:
